@@ -228,8 +228,35 @@ func runC07(c *Ctx, idx int) {
 			c.Count("pairs.evolved", 1)
 		} else {
 			ra, rb, pattern = genSyntheticPair(r)
+			if r.Intn(10) == 0 {
+				// innovation numbers are int64: a population that has issued very many of them (or a file written elsewhere)
+				// carries numbers far beyond 2^53
+				base := pick(r, int64(1)<<53, math.MaxInt64-200)
+				for i := range ra {
+					ra[i].innov += base
+				}
+				for i := range rb {
+					rb[i].innov += base
+				}
+				c.Count("pairs.huge_innovation_numbers", 1)
+			}
 			// the genome id is no part of the distance: every fourth pair carries equal ids
 			ga, gb = genomeFromRecs(1, ra), genomeFromRecs(pick(r, 2, 2, 2, 1), rb)
+			if r.Intn(8) == 0 {
+				// two genomes may hold the very same gene objects for the genes they have in common (built by hand from one pool)
+				shared := 0
+				for i, x := range ga.Genes {
+					for j, y := range gb.Genes {
+						if x.InnovationNum == y.InnovationNum && fbits(x.MutationNum) == fbits(y.MutationNum) {
+							gb.Genes[j] = ga.Genes[i]
+							shared++
+						}
+					}
+				}
+				if shared > 0 {
+					c.Count("pairs.sharing_gene_objects", 1)
+				}
+			}
 			c.Count("pairs.synthetic", 1)
 			c.Count("pattern."+pattern, 1)
 		}
